@@ -570,6 +570,9 @@ Qed.
 
 Definition has_row (reqs : list (list row)) : Prop := exists rows r, In rows reqs /\ In r rows.
 
+Lemma has_row_cons r rows rest : has_row ((r :: rows) :: rest).
+Proof. exists (r :: rows), r. split; left; reflexivity. Qed.
+
 Theorem write_read_lww tfs recLen reqs :
   guard_C08 tfs recLen reqs = true -> has_row reqs ->
   query_bucket_all tfs recLen (fold_left (write_fixed tfs recLen) reqs empty_store) = Ok (lww tfs reqs).
